@@ -129,11 +129,17 @@ def gen_refops(seed, rng, tier):
                             "symref", "pack", "pack", "get", "get", "raw",
                             "dict", "lcas", "has"])
             op = {"kind": k}
+            # now and then a ref is set back to the older value that its
+            # packed-refs entry still holds under the loose file
+            shadowed = init.get(name, {}).get("packed") if \
+                "loose" in init.get(name, {}) else None
             if k in ("cas", "lcas"):
                 op["name"] = name
                 op["old"] = rng.choice(["init", "init", "last", "last",
                                         "zero", "stale"])
                 op["new"] = fresh()
+                if shadowed and rng.random() < 0.3:
+                    op["new"] = shadowed
             elif k == "add":
                 op["name"] = name
                 op["new"] = fresh()
@@ -143,6 +149,8 @@ def gen_refops(seed, rng, tier):
             elif k == "set":
                 op["name"] = name
                 op["new"] = fresh()
+                if shadowed and rng.random() < 0.3:
+                    op["new"] = shadowed
             elif k == "del":
                 op["name"] = name if name != H else B
             elif k == "symref":
@@ -452,7 +460,12 @@ def judge(sim, plan, history, state0):
             break
     hist = [{kk: vv for kk, vv in o.items() if kk != "exc"} for o in ops]
     if not cands:
-        return [{"sig": "C08/not-linearizable/multiple",
+        sig = "C08/not-linearizable/multiple"
+        mechs = {m for o in ops if not o.get("final")
+                 for m in [_mechanism(sim, o, ops)] if m}
+        if mechs:
+            sig += "/related:" + "+".join(sorted(mechs))
+        return [{"sig": sig,
                  "detail": json.dumps({"history": hist}, default=str)[:3000]}]
 
     def describe(o):
@@ -525,6 +538,10 @@ def _mechanism(sim, culprit, ops):
         path = "repo/.git/" + name
         unl = [i for i, e in enumerate(ev)
                if e[1] == me and e[2] == "unlink" and e[3] == path]
+        # the deleter's own looks at packed-refs
+        looks = [i for i, e in enumerate(ev)
+                 if e[1] == me and e[2] in ("stat", "open_r") and
+                 e[3] == "repo/.git/packed-refs"]
         for p in {o["actor"] for o in ops if o["op"]["kind"] == "pack"}:
             lock_at = None
             for i, e in enumerate(ev):
@@ -540,6 +557,17 @@ def _mechanism(sim, culprit, ops):
                     if seen_open is not None and any(
                             seen_open < u < i for u in unl):
                         return "unlinked-while-packer-holds-packed-refs-lock"
+                    # same missing serialisation, other order: the deleter
+                    # looked at packed-refs while the packer held its lock
+                    # (the entry was not there yet), the packer then wrote
+                    # the value it had read, the deleter unlinked the loose
+                    # file: the packed value shows until the deleter's
+                    # re-check removes it
+                    if seen_open is not None and any(
+                            lock_at < j < i and any(u > j and u > seen_open
+                                                    for u in unl)
+                            for j in looks):
+                        return "packed-refs-examined-while-packer-holds-lock"
                     lock_at = None
         return None
     if name == H and k in ("get", "has"):
